@@ -1,6 +1,7 @@
 package vc
 
 import (
+	"os/exec"
 	"bufio"
 	"encoding/json"
 	"flag"
@@ -410,6 +411,12 @@ func cmdCheck(args []string) int {
 	if *tier == "thorough" {
 		cov["cross_confirmed"] = confirmed
 		cov["solver_disagreements"] = disagreements
+		// guard on the machinery itself: every must-fail mutant of this property (selftest/mutants/<id>-*.diff) is applied
+		// to a scratch copy of the tree under check and must be reported by the quick check; a mutant whose patch no longer
+		// applies (the tree was changed) is skipped. The outcome is evidence, it does not change the verdict on the property.
+		if os.Getenv("VCGO_NO_SELFTEST") == "" {
+			cov["must_fail_corpus"] = runSelftest(*prop, *repo)
+		}
 	}
 	ev := evidence{PropertyID: *prop, Tier: *tier, Seed: seed, Level: "proof", Coverage: cov, Assumptions: assumptions, WallS: round3(time.Since(t0).Seconds()), Violations: violations}
 	os.MkdirAll(*evdir, 0o755)
@@ -576,4 +583,53 @@ func lemmaProofs(proofs map[string]string) []*ExtraResult {
 			Detail: "induction proof of a spec-function lemma from the recursive definition (must be unsat); solver answered " + ans, Note: "no-failing-input-found"})
 	}
 	return out
+}
+
+// runSelftest runs selftest/run.sh for the mutants of one property against the repository under check.
+func runSelftest(prop, repo string) map[string]interface{} {
+	res := map[string]interface{}{}
+	matches, _ := filepath.Glob("/verif/selftest/mutants/" + prop + "-*.diff")
+	if len(matches) == 0 {
+		res["mutants"] = 0
+		return res
+	}
+	cmd := exec.Command("/verif/selftest/run.sh", "-j", "2", prop+"-*")
+	cmd.Env = append(os.Environ(), "REPO="+repo, "VCGO_NO_SELFTEST=1")
+	out, _ := cmd.CombinedOutput()
+	var caught, missed, stale []string
+	for _, l := range strings.Split(string(out), "\n") {
+		f := strings.Fields(l)
+		if len(f) < 2 {
+			continue
+		}
+		name := strings.TrimSuffix(f[1], ":")
+		switch f[0] {
+		case "caught":
+			caught = append(caught, name)
+		case "MISSED":
+			missed = append(missed, name)
+		case "STALE":
+			stale = append(stale, name)
+		}
+	}
+	seen := map[string]bool{}
+	uniq := func(xs []string) []string {
+		var o []string
+		for _, x := range xs {
+			if !seen[x] {
+				seen[x] = true
+				o = append(o, x)
+			}
+		}
+		return o
+	}
+	caught, missed, stale = uniq(caught), uniq(missed), uniq(stale)
+	res["mutants"] = len(matches)
+	res["caught"] = caught
+	res["missed"] = missed
+	res["skipped_patch_does_not_apply"] = stale
+	if len(missed) > 0 {
+		fmt.Printf("SELFTEST: %d must-fail mutant(s) of %s not reported: %s\n", len(missed), prop, strings.Join(missed, ", "))
+	}
+	return res
 }
